@@ -536,16 +536,58 @@ def _failstop(plan, scratch, screen, rows, stats, violation, log):
     if kind == "masked-row":
         if all(r[4] for r in rows):
             return
-        sel = np.ones(len(rows), dtype=bool)  # everything, including masked rows
+        # the input that still contains masked rows comes in every shape the data model can produce: the whole
+        # screen, a row selection, one unobserved plate, and Plate-typed UNIONS (combine / concat / invert return
+        # multi-plate objects typed Plate) whose first row may be observed or masked
+        frnd = random.Random(plan["poison_seed"])
+        plates = list(screen.plates)
+        obs_pl = [q for q in plates if q.is_observed]
+        un_pl = [q for q in plates if not q.is_observed]
+        forms = ["subset-all", "screen", "selection"]
+        if un_pl:
+            forms += ["unobserved-plate", "invert"]
+        if un_pl and obs_pl:
+            forms += ["combine-observed-first", "combine-masked-first", "concat-shuffled", "observed-view-plus-plate"] * 2
+        form = frnd.choice(forms)
         try:
-            fresh_model().add_observations(screen.subset(sel))
+            if form == "subset-all":
+                data = screen.subset(np.ones(len(rows), dtype=bool))
+            elif form == "screen":
+                data = screen
+            elif form == "selection":
+                sel = np.array([frnd.random() < 0.5 for _ in rows], dtype=bool)
+                masked = [i for i, r in enumerate(rows) if not r[4]]
+                sel[frnd.choice(masked)] = True
+                data = screen.subset(sel)
+            elif form == "unobserved-plate":
+                data = frnd.choice(un_pl)
+            elif form == "invert":
+                cands = [q for q in plates if q is not un_pl[0]] or plates
+                data = frnd.choice(cands).invert()
+            elif form == "combine-observed-first":
+                data = frnd.choice(obs_pl).combine(frnd.choice(un_pl))
+            elif form == "combine-masked-first":
+                data = frnd.choice(un_pl).combine(frnd.choice(obs_pl))
+            elif form == "concat-shuffled":
+                parts = [frnd.choice(obs_pl), frnd.choice(un_pl)] + frnd.sample(plates, frnd.randint(0, min(2, len(plates))))
+                frnd.shuffle(parts)
+                data = type(parts[0]).concat(parts)
+            else:
+                data = screen.subset_observed().combine(frnd.choice(un_pl))
+        except Exception as e:
+            raise pipe.HarnessError(f"building the {form} input failed: {e!r}")
+        if bool(np.all(np.asarray(data.observation_mask))):
+            return  # (invert of the only unobserved plate etc.) nothing masked in it
+        stats.probe("masked_input_form:" + form)
+        try:
+            fresh_model().add_observations(data)
         except ValueError:
             stats.probe("masked_row_refused")
             return
         except Exception as e:
-            violation("C04.refuse", f"{mname}:masked-row:{type(e).__name__}", f"{mname} given masked rows raised {e!r} (not a clean refusal)")
+            violation("C04.refuse", f"{mname}:masked-row:{type(e).__name__}", f"{mname} given masked rows ({form}) raised {e!r} (not a clean refusal)")
             return
-        violation("C04.refuse", f"{mname}:masked-row", f"{mname}.add_observations accepted a subset that still contains masked rows")
+        violation("C04.refuse", f"{mname}:masked-row", f"{mname}.add_observations accepted a {form} input that still contains masked rows")
         return
     # store.poison-observed: an observed cell is negative / NaN
     obs_idx = [i for i, r in enumerate(rows) if r[4]]
